@@ -543,6 +543,9 @@ def _into(it, a, info):
         if isinstance(v, Buf):
             return Buf(v.arr, v.len, v.maxlen, target)
         return new_buf_from(it, s, target)
+    if target in ('IpAddr', 'SocketAddr'):
+        from . import netaddr
+        return netaddr.m_into_ip(it, a, info) if target == 'IpAddr' else netaddr.m_into_sa(it, a, info)
     if target == 'Box':
         return BoxObj(v)
     raise Unsupported('Into/From %s -> %s (%s)' % (rt, target, info['text']))
